@@ -908,6 +908,54 @@ def opINP (_args obs : List String) : P String := pure (functional ["1"] obs)
 def opBCF (_args obs : List String) : P String :=
   pure (reply (obs == ["REJECTED"]) (obs == ["REJECTED"]) ["REJECTED"])
 
+/-- `WF <what> | s n f cx nint upper lower precision dtype scale bias [codes]` — an object returned by the
+implementation during a random program; judged by the verified well-formedness checker (no model prediction). -/
+def opWF (_args obs : List String) : P String := do
+  match obs with
+  | [s, n, f, cx, nint, up, lo, pr, dt, sc, bi, cs] =>
+    match pFmt s n f, pBool cx, pInt nint, pRat up, pRat lo, pRat pr, pRat sc, pRat bi, pList pInt cs with
+    | .ok fmt, .ok cx, .ok nint, .ok up, .ok lo, .ok pr, .ok sc, .ok bi, .ok cs =>
+      let ok := Chk.c02 fmt cx sc bi nint up lo pr dt cs
+      pure (reply ok ok ["wf"])
+    | _, _, _, _, _, _, _, _, _ => pure (reply false false ["unparsable"])
+  | _ => pure (reply false false ["wf"])
+
+def chkWFGroups : Nat → List String → Nat → Option Nat
+  | 0, _, _ => none
+  | _, [], _ => none
+  | fuel + 1, s :: n :: f :: cx :: nint :: up :: lo :: pr :: dt :: sc :: bi :: cs :: rest, i =>
+    match pFmt s n f, pBool cx, pInt nint, pRat up, pRat lo, pRat pr, pRat sc, pRat bi, pList pInt cs with
+    | .ok fmt, .ok cx, .ok nint, .ok up, .ok lo, .ok pr, .ok sc, .ok bi, .ok cs =>
+      if Chk.c02 fmt cx sc bi nint up lo pr dt cs then chkWFGroups fuel rest (i + 1) else some i
+    | _, _, _, _, _, _, _, _, _ => some i
+  | _, _, i => some i
+
+/-- `PROG <seed> <maxword> <steps> | (s n f cx nint upper lower precision dtype scale bias [codes])*`
+a random program of public operations executed on the implementation; every object it returned is judged by the
+verified well-formedness checker. -/
+def opPROG (_args obs : List String) : P String := do
+  if isExc obs then return reply false false ["exception"]
+  match chkWFGroups (obs.length + 1) obs 0 with
+  | none => pure (reply true true [s!"wf{obs.length / 12}"])
+  | some i => pure (reply false false [s!"bad@{i}"])
+
+/-- `SX <fmt> <rounding> <route> <v> | code` — saturation of an input of any magnitude (float or Python int),
+`n_frac ≥ 0`: the code is the bound on the input's own side. -/
+def opSX (args obs : List String) : P String := do
+  match args with
+  | [s, n, f, r, _carrier, v] =>
+    let fmt ← pFmt s n f
+    let r ← pRounding r
+    let v ← pRat v
+    let m := quantize fmt r .saturate v
+    match obs with
+    | [c] =>
+      match c.toInt? with
+      | some c => pure (reply (decide (c = m)) (Chk.c02side fmt v c) [toString m])
+      | none => pure (reply false false [toString m])
+    | _ => pure (reply false false [toString m])
+  | _ => throw "SX: arity"
+
 /-- `UN <op=neg|pos|abs> <fx> [codes] | s n f [codes]` — unary operators build a default-config object. -/
 def opUN (args obs : List String) : P String := do
   match args with
@@ -942,6 +990,9 @@ def dispatch (op : String) (args obs : List String) : P String :=
   | "NC" => opNC args obs
   | "DR" => opDR args obs
   | "SB" => opSB args obs
+  | "WF" => opWF args obs
+  | "PROG" => opPROG args obs
+  | "SX" => opSX args obs
   | "INP" => opINP args obs
   | "BCF" => opBCF args obs
   | "HEAP" => opHEAP args obs
